@@ -124,22 +124,21 @@ theorem parentUpperReal_inv (pp : Path) :
     (Triple.whenM' (fun _ => (createUpperDir_inv pp).post fun _ _ h => h.2) fun _ _ h => h) fun _ => ?_
   exact getUpperReal_inv pp
 
+theorem copyContent_inv (st : Node) (ri : Real) (hri : I.φ ri ∧ ri.inUpper = true) :
+    Triple INV (copyContent st ri) (fun _ => INV) INV := by
+  unfold copyContent
+  split
+  · exact layerCall_inv ri _ _ hri.1 hri.2 (by keeproot)
+  · exact Triple.pure' fun _ h => h
+
 theorem copyFileUp_inv (st : Node) (pp : Path) (n : Name) :
     Triple INV (copyFileUp st pp n) (fun _ s => UpAt (n :: pp) s ∧ INV s) INV := by
   unfold copyFileUp
-  split
-  · refine Triple.bind (parentUpperReal_inv pp) fun pr => Triple.pure_pre fun hpr => ?_
-    refine Triple.bind (mkNode_inv pr _ n _ hpr.1) fun ri => Triple.pure_pre fun hri => ?_
-    exact addUpperInode_inv _ ri true hri.1 hri.2
-  · refine Triple.bind (parentUpperReal_inv pp) fun pr => Triple.pure_pre fun hpr => ?_
-    refine Triple.bind freshId_inv fun id => ?_
-    refine Triple.bind (mkNode_inv pr _ n _ hpr.1) fun ri => Triple.pure_pre fun hri => ?_
-    refine Triple.bind (layerCall_inv ri _ _ hri.1 hri.2 (by keeproot)) fun _ => ?_
-    exact addUpperInode_inv _ ri true hri.1 hri.2
-  · refine Triple.bind (parentUpperReal_inv pp) fun pr => Triple.pure_pre fun hpr => ?_
-    refine Triple.bind freshId_inv fun id => ?_
-    refine Triple.bind (mkNode_inv pr _ n _ hpr.1) fun ri => Triple.pure_pre fun hri => ?_
-    exact addUpperInode_inv _ ri true hri.1 hri.2
+  refine Triple.bind (parentUpperReal_inv pp) fun pr => Triple.pure_pre fun hpr => ?_
+  refine Triple.bind freshId_inv fun id => ?_
+  refine Triple.bind (mkNode_inv pr _ n _ hpr.1) fun ri => Triple.pure_pre fun hri => ?_
+  refine Triple.bind (copyContent_inv st ri hri) fun _ => ?_
+  exact addUpperInode_inv _ ri true hri.1 hri.2
 
 theorem copyNodeUp_inv (p : Path) :
     Triple INV (copyNodeUp p) (fun _ s => UpAt p s ∧ INV s) INV := by
